@@ -4,7 +4,10 @@ package harness
 // from observations (snapshots and results), for the evidence histograms and the
 // non-triviality rules.
 
-import "math/big"
+import (
+	"fmt"
+	"math/big"
+)
 
 type Labeler struct{}
 
@@ -39,6 +42,28 @@ func (Labeler) After(x *Exec, op *Op, res *Res) {
 				x.OwnerlessSeen[dn] = true
 				x.Label("ownerless-value-state-entered")
 			}
+		}
+	}
+	for i := range post.Vals {
+		if pre.Vals[i].Status != 0 && post.Vals[i].Status == 0 {
+			x.Label("validator-removed")
+			marked := false
+			for _, d := range post.Dels {
+				if d.V == i {
+					if x.RemovedWithStake == nil {
+						x.RemovedWithStake = map[string]bool{}
+					}
+					x.RemovedWithStake[fmt.Sprintf("%d|%s", i, d.Denom)] = true
+					x.RemovedWithStake[d.Denom] = true
+					if !marked {
+						x.Label("validator-removed-with-alliance-delegations")
+						marked = true
+					}
+				}
+			}
+		}
+		if pre.Vals[i].Status == 0 && post.Vals[i].Status != 0 {
+			x.Label("validator-created-again")
 		}
 	}
 	switch op.K {
